@@ -139,6 +139,15 @@ def handle : Handler
       | some o =>
         some (verdict (decide (SamePartition l o) && decide (ValidClustering l.length o true))
           s!"same={decide (SamePartition l o)} valid={decide (ValidClustering l.length o true)}")) "bad-args"
+  | "c05.spec_post", [levels, index, sh, labels] => some <| Option.getD (do
+      -- the final labels induce the partition found by the kernels (levels composed), read through `index`
+      let levels ← intListList? levels
+      let index ← natList? index
+      let labels ← intList? labels
+      let n := (levels.headD []).length
+      let a := levels.foldl (fun (a : List Nat) raw => a.map fun x => (inverse raw).getD x 0) (List.range n)
+      let seen := if (← bool? sh) then index.map fun v => labels.getD v (-1) else labels
+      some (verdict (decide (SamePartition a seen) && labels.length == n))) "bad-args"
   | "c05.spec_same", [a, b] => some <| Option.getD (do
       let a ← intList? a
       let b ← intList? b
@@ -169,6 +178,17 @@ def handle : Handler
       let entries := decide (AggOK a lr lc k agg tol)
       let total := decide (absR (sumAll agg - totalWeight a) ≤ tol * ((k * k : Nat) : Rat))
       some (verdict (entries && total) s!"entries={entries} total={total}")) "bad-args"
+  | "c05.spec_centers", [bip, nRow, nCol, pos, nc, centers] => some <| Option.getD (do
+      -- the centres of one restart: `n_clusters` distinct admissible nodes
+      let bip ← bool? bip
+      let nRow ← nRow.toNat?
+      let nCol ← nCol.toNat?
+      let pos ← pos? pos
+      let nc ← nc.toNat?
+      match natsOfInts? (← intList? centers) with
+      | some c =>
+        some (verdict (c.length == nc && decide c.Nodup && c.all fun x => decide (Admissible bip nRow nCol pos x)))
+      | none => some "fails negative") "bad-args"
   | "c05.spec_kcenters", [bip, nRow, nCol, pos, nc, labels, centers, cr, cc] => some <| Option.getD (do
       let bip ← bool? bip
       let nRow ← nRow.toNat?
